@@ -9,6 +9,7 @@ import (
 	"strings"
 	"time"
 
+	"github.com/mgtv-tech/redis-GunYu/cmd"
 	"github.com/mgtv-tech/redis-GunYu/config"
 	"github.com/mgtv-tech/redis-GunYu/pkg/redis/checkpoint"
 	"github.com/mgtv-tech/redis-GunYu/pkg/redis/client"
@@ -27,7 +28,7 @@ import (
 // order in the repo, made a recorded choice by the rewriter) is enumerated through the salt.
 
 func init() {
-	Register(&PropertyDef{ID: "C17", Strata: []string{"failover", "rename", "gc", "failover-both", "gc-live"}, Run: runC17, StepCap: 200000})
+	Register(&PropertyDef{ID: "C17", Strata: []string{"failover", "rename", "gc", "failover-both", "gc-live", "gccmd", "gccmd-failover"}, Run: runC17, StepCap: 200000})
 }
 
 const cpIndexKey = "redis-gunyu-checkpoint-hash" // documented: run id -> checkpoint key name, database 0
@@ -88,9 +89,10 @@ func readPositionModel(srv *simredis.Server, ids []string) cpPos {
 }
 
 type c17sim struct {
-	r    *Run
-	srv  *simredis.Server
-	viol *Violation
+	r     *Run
+	srv   *simredis.Server
+	extra []*simredis.Server // further doubles an operation talks to (source nodes); never crashed
+	viol  *Violation
 }
 
 func (c *c17sim) setViolation(rule, sig, format string, a ...any) {
@@ -133,6 +135,17 @@ func (c *c17sim) runOp(name string, fn func(ctx context.Context) error, crashAft
 				}
 			}
 			cancel()
+			continue
+		}
+		stepped := false
+		for _, x := range c.extra {
+			if rd := x.Ready(); len(rd) > 0 {
+				x.Step(rd[0])
+				stepped = true
+				break
+			}
+		}
+		if stepped {
 			continue
 		}
 		ready := c.srv.Ready()
@@ -311,6 +324,7 @@ func runC17(r *Run, stratum string) *Violation {
 	}
 
 	var ids []string
+	var extraServers []*simredis.Server
 	var opName string
 	var op func(ctx context.Context) error
 	liveIDs := map[string]bool{}
@@ -333,6 +347,34 @@ func runC17(r *Run, stratum string) *Violation {
 			}
 			defer cli.Close()
 			return checkpoint.UpdateCheckpoint(cli, local, ids)
+		}
+	case "gccmd", "gccmd-failover":
+		// the REAL cmd.SyncerCmd.gcStaleCheckpoint (through an injected accessor): it asks every source node for its
+		// replication ids (INFO replication) and collects stale checkpoints on every target node.
+		ids = []string{oldID, newID}
+		opName = "cmd gcStaleCheckpoint"
+		srcSrv := simredis.NewServer(simSourceAddr)
+		si := simredis.NewSource(srcSrv, oldID)
+		_ = si
+		if stratum == "gccmd-failover" {
+			// after a failover the source reports a new id and still serves the previous one (master_replid2):
+			// the checkpoint, not yet moved, is stored under the previous id and is live
+			srcSrv.Repl.ID, srcSrv.Repl.ID2, srcSrv.Repl.SecondOffset = newID, oldID, 1000
+			ids = []string{newID, oldID}
+		}
+		r.Net.Listen(simSourceAddr, srcSrv)
+		extraServers = append(extraServers, srcSrv)
+		liveIDs[oldID] = true
+		sc := config.GetSyncerConfig()
+		sc.Input.Redis = &config.RedisConfig{Addresses: []string{simSourceAddr}, Type: config.RedisTypeStandalone, Otype: config.RedisTypeStandalone, Version: "7.2.0", ClusterOptions: &config.RedisClusterOptions{}}
+		sc.Input.Redis.SetClusterShards([]*config.RedisClusterShard{{Master: config.RedisNode{Address: simSourceAddr}}})
+		sc.Output.Redis = &config.RedisConfig{Addresses: []string{simTargetAddr}, Type: config.RedisTypeStandalone, Otype: config.RedisTypeStandalone, Version: "7.2.0", ClusterOptions: &config.RedisClusterOptions{}}
+		sc.Output.Redis.SetClusterShards([]*config.RedisClusterShard{{Master: config.RedisNode{Address: simTargetAddr}}})
+		sc.Channel.Type = config.ChannelTypeMemory
+		sc.Channel.StaleCheckpointDuration = staleDur
+		op = func(ctx context.Context) error {
+			cmd.VerifGcStaleCheckpoint(ctx)
+			return nil
 		}
 	default: // gc, gc-live
 		ids = []string{oldID, newID}
@@ -370,6 +412,7 @@ func runC17(r *Run, stratum string) *Violation {
 	r.Sample = fmt.Sprintf("%s op=%s ids=[%s.. %s..] local=%s before={ok=%v off=%d dbs=%v} state: %s", stratum, opName, ids[0][:6], ids[1][:6], local, before.ok, before.off, before.dbs, describeKeyspace(c.srv))
 	r.Logf("C17 %s", r.Sample)
 	isGC := strings.HasPrefix(stratum, "gc")
+	c.extra = extraServers
 	if isGC && !liveIDs[oldID] {
 		// GC of an id no source reports may remove everything: only the 'live id' clause applies
 		before.ok = false
@@ -433,9 +476,11 @@ func runC17(r *Run, stratum string) *Violation {
 		}
 	}
 	r.NonTriv = before.ok || (isGC && liveIDs[oldID])
-	for _, ss := range c.srv.Sessions {
-		if !ss.Dead {
-			c.srv.KillSession(ss, 0)
+	for _, x := range append([]*simredis.Server{c.srv}, c.extra...) {
+		for _, ss := range x.Sessions {
+			if !ss.Dead {
+				x.KillSession(ss, 0)
+			}
 		}
 	}
 	r.Settle()
